@@ -22,7 +22,7 @@ NSHARDS = 16
 
 
 def plan(tier, seed):
-    n = 5000 if tier == "quick" else 200000
+    n = 16000 if tier == "quick" else 1000000
     return [{"kind": "random", "start": p * (n // NSHARDS), "count": n // NSHARDS} for p in range(NSHARDS)]
 
 
